@@ -59,7 +59,7 @@ REQUIRED = ["op:invariant", "op:components", "op:membership", "op:region-locatio
             "hist:cds-added-after-regions", "hist:create-regions-from-handed-areas", "hist-op:add_protocluster", "hist-op:add_subregion",
             "hist-op:add_cds_feature", "hist-op:create_candidate_clusters", "hist-op:create_regions",
             "hist-op:clear_regions", "hist-op:clear_candidate_clusters", "hist-op:clear_protoclusters",
-            "hist-op:clear_subregions", "hist-op:strip_antismash_annotations", "hist-op:add_region",
+            "hist-op:clear_subregions", "hist-op:strip_antismash_annotations", "hist-op:add_region", "hist-op:run_detection",
             "add_region:overlapping-a-region", "add_region:clear-of-all-regions",
             "monitor:Record.add_region", "monitor:Record.add_candidate_cluster", "monitor:Record.create_regions"]
 
@@ -618,6 +618,60 @@ def run_history(ctx, case) -> None:
                      "subregions": [s["extent"] for s in case["subregions"]], "ops": case["ops"]} if nontrivial else None)
 
 
+def run_detection_glue(ctx, case):
+    """ the areas reach the record the way the pipeline hands them over: antismash.main.run_detection collects the
+        protoclusters and subregions a detection module predicts, forms candidate clusters and regions, and marks
+        a record without regions as skipped. The module is a stand-in predicting the world's areas. """
+    global SESSION
+    from types import SimpleNamespace
+    from unittest.mock import patch as mock_patch
+    import antismash.main as main_module
+    from antismash.common.module_results import DetectionResults
+    from antismash.detection import DetectionStage
+    install(ctx)
+    world = case
+    record = W.make_record(world["L"], world["circular"])
+    sess = Session(ctx, case, record)
+    SESSION = sess
+    try:
+        for i in range(len(world["genes"])):
+            record.add_cds_feature(make_object(world, ["add_cds_feature", i]))
+        protos = [make_object(world, ["add_protocluster", i]) for i in range(len(world["protoclusters"]))]
+        subs = [make_object(world, ["add_subregion", i]) for i in range(len(world["subregions"]))]
+
+        class Predicted(DetectionResults):
+            def get_predicted_protoclusters(self):
+                return list(protos)
+
+            def get_predicted_subregions(self):
+                return list(subs)
+
+        stub = SimpleNamespace(__name__="vf.stand_in_detection", is_enabled=lambda _options: True,
+                               run_on_record=lambda rec, _previous, _options: Predicted(rec.id),
+                               regenerate_previous_results=lambda *_args: None)
+        stages = {stage: [] for stage in DetectionStage}
+        stages[DetectionStage.AREA_FORMATION] = [stub]
+        ctx.count("hist-op:run_detection")
+        sess.current_op = "run_detection"
+        try:
+            with mock_patch.object(main_module, "_DETECTION_MODULES", stages):
+                main_module.run_detection(record, SimpleNamespace(all_enabled_modules=[stub]), {})
+        except Exception as err:  # pylint: disable=broad-except
+            facts = sess.facts(op="run_detection", **core.crash_facts(err))
+            facts.update(area_facts(sess, current_areas(record)))
+            ctx.violate("region-creation-succeeds", facts, case)
+            return
+        sess.current_op = None
+        sess.done.append("run_detection")
+        check_regions(sess, record)
+        if bool(record.skip) != (not record.get_regions()):
+            ctx.violate("record-skipped-exactly-without-regions",
+                        sess.facts(skip=record.skip, regions=len(record.get_regions())), case)
+    finally:
+        SESSION = None
+    ctx.case(("glue", case), nontrivial=len(world["protoclusters"]) + len(world["subregions"]) >= 2)
+
+
 def run(ctx):
     global _INSTALLED
     rng = ctx.rng("worlds")
@@ -629,11 +683,16 @@ def run(ctx):
         ctx.guard("harness-or-crash", build, run_history, ctx, build)
         hist = dict(world, ops=G.random_history(world, rng))
         ctx.guard("harness-or-crash", hist, run_history, ctx, hist)
+        glue = dict(world, ops=[["run_detection"]])
+        ctx.guard("harness-or-crash", glue, run_detection_glue, ctx, glue)
     instrument.uninstall_all()
     _INSTALLED = False
 
 
 def replay(ctx, case):
+    if case.get("ops") == [["run_detection"]]:
+        run_detection_glue(ctx, case)
+        return
     run_history(ctx, case)
 
 
